@@ -22,6 +22,7 @@ import os
 import random
 import re
 import time
+import warnings
 from fractions import Fraction
 
 import vlib
@@ -342,7 +343,7 @@ def apply_op(pr, env, o):
     elif t == "S":
         target(o[1]).importance.all = float(Fraction(o[2]))
     elif t == "Wr":
-        text = mp.write_problem(pr, "c09_intermediate.i")
+        text = write_file(pr, "c09_intermediate.i", env.get("warnings"))
         if env.get("judge_intermediate"):
             mode = real_mode(pr)
             try:
@@ -401,6 +402,19 @@ def real_mode(pr):
     return [pid(p.value) for p in pr.mode.particles]
 
 
+def write_file(pr, name, warn):
+    """write_to_file; warn == "always": with every warning delivered (the harness otherwise writes with warnings
+    ignored, which hides what MontePy does with its own LineExpansionWarning: 1eab23e)"""
+    if warn != "always":
+        return mp.write_problem(pr, name)
+    path = os.path.join(mp.tmpdir(), name)
+    with warnings.catch_warnings(record=True):
+        warnings.simplefilter("always")
+        pr.write_to_file(path, overwrite=True)
+    with open(path, newline="") as fh:
+        return fh.read()
+
+
 def run_real(case, probe_first=True):
     """-> dict(read_error | oplog, api, flags, mode, write_error | out)
     probe_first=False: nothing is read from the objects between the last statement and write_to_file (a probe can
@@ -409,7 +423,7 @@ def run_real(case, probe_first=True):
         pr = mp.read_problem(case["text"])
     except Exception as e:
         return {"read_error": exc_class(e)}
-    env = {"scratch": None, "judge_intermediate": probe_first}
+    env = {"scratch": None, "judge_intermediate": probe_first, "warnings": case.get("warnings")}
     log = []
     for o in case["ops"]:
         try:
@@ -423,11 +437,14 @@ def run_real(case, probe_first=True):
                 env.setdefault("intermediate_write_errors", []).append(log_w)
             else:
                 log.append(exc_class(e))
+                # a per-cell data edit through the public API that raises anything but the documented refusal
+                if o[0] in ("I", "S", "V", "U", "L", "G") and exc_class(e) != "ParticleTypeNotInProblem":
+                    env.setdefault("bad_statements", []).append([o, exc_class(e), str(e)[:120]])
     mode = real_mode(pr)
     res = {"oplog": log, "mode": mode,
            "flags": {k: bool(pr.print_in_data_block[k]) for k in CLASSES},
            "intermediate_write_errors": env.get("intermediate_write_errors", []),
-           "intermediate": env.get("intermediate", [])}
+           "intermediate": env.get("intermediate", []), "bad_statements": env.get("bad_statements", [])}
 
     def take_api(key):
         try:
@@ -442,7 +459,7 @@ def run_real(case, probe_first=True):
     except Exception:
         res["signs"] = None
     try:
-        res["out"] = mp.write_problem(pr, "c09.i")
+        res["out"] = write_file(pr, "c09.i", case.get("warnings"))
     except Exception as e:
         res["write_error"] = exc_class(e)
         res["write_error_text"] = str(e)[:200]
@@ -676,7 +693,16 @@ def gen_c09(rng):
                 if extra.split(":")[0].split("=")[0] not in [x.split(":")[0].split("=")[0] for x in params]:
                     params.append(kw(extra))
         rng.shuffle(params)
-        cells.append(" ".join(["%d 0 %s" % (c, geom)] + params))
+        style = rng.random()
+        if params and style < 0.3:
+            # every parameter on a line of its own, followed by a '$' comment (a datum with a comment after it)
+            first = "%d 0 %s %s $ c%d first" % (c, geom, params[0], c)
+            rest = ["     %s $ c%d %s" % (x, c, "abcdefgh"[j % 8]) for j, x in enumerate(params[1:])]
+            cells.append("\n".join([first] + rest))
+        elif params and style < 0.45:
+            cells.append(" ".join(["%d 0 %s" % (c, geom)] + params) + " $ c%d end" % c)
+        else:
+            cells.append(" ".join(["%d 0 %s" % (c, geom)] + params))
     data = []
     others = [["nps 100"], ["print"], ["sdef pos=0 0 0 erg=1.5"], ["cut:%s j 0.01" % particles[0]], ["prdmp 2j 1"]]
     rng.shuffle(others)
@@ -823,6 +849,45 @@ def gen_program(rng, meta, length=None):
         if rng.random() < 0.12:
             ops.append(["Wr"])
     return ops
+
+
+def warning_programs(rng, meta):
+    """regression stream for 1eab23e: placement switch -> write -> edits that make tokens wider -> write, run with
+    every Python warning delivered (warnings.simplefilter("always")): write_to_file must not raise and both files
+    must say what the API says"""
+    cells = list(meta["cells"])
+    parts = list(meta["particles"])
+    univs = list(meta["universes"])
+    place = meta.get("place", {})
+    out = []
+    for k in CLASSES:
+        if k != "imp" and not meta["has"].get(k):
+            continue
+        to = 0 if place.get(k) == "data" else 1
+        if k == "vol":
+            wide = [["V", cells[-1], "1234.5678"], ["V", cells[0], "7.25"]]
+        elif k == "u":
+            wide = [["U", cells[-1], 33333]]
+        elif k == "fill":
+            wide = [["G", cells[0], 33333 if not univs else univs[-1]], ["U", cells[-1], 33333]]
+        elif k == "lat":
+            wide = [["L", cells[-1], 2]]
+        else:
+            wide = [["I", cells[-1], q, "0.125"] for q in parts] + [["I", cells[0], parts[0], "1234.5"]]
+        if k == "vol":
+            narrow = [["V", x, "4.5"] for x in cells]
+        elif k == "u":
+            narrow = [["U", cells[-1], univs[0] if univs else 7]]
+        elif k == "fill":
+            narrow = [["G", cells[0], univs[0] if univs else 7]]
+        elif k == "lat":
+            narrow = [["L", x, 2] for x in cells[-2:]]
+        else:
+            narrow = [["I", x, q, "3"] for x in cells for q in parts]
+        out.append(("quiet-%s-switch-write-edit" % k, [["F", k, to], ["Wr"]] + narrow))
+        out.append(("warn-%s-to-%s" % (k, "data" if to else "cell"), [["F", k, to], ["Wr"]] + wide))
+        out.append(("warn-%s-there-and-back" % k, [["F", k, to], ["Wr"]] + wide + [["Wr"], ["F", k, 1 - to]]))
+    return out
 
 
 def flag_ops(bits):
@@ -1119,7 +1184,13 @@ def comment_oracle(case, real):
 
 def oracle_all(real, reread=True):
     """the oracle on the final file and on every file an intermediate write_to_file made"""
+    if real.get("bad_statements"):
+        return {"kind": "statement-raises", "detail": real["bad_statements"][0]}
     r = oracle(real, reread=reread)
+    if r is None:
+        bad = [e for e in real.get("intermediate_write_errors", []) if e not in REFUSALS]
+        if bad:
+            return {"kind": "write-raises", "detail": [bad[0], "raised by an intermediate write_to_file"]}
     if r is None:
         for j, mid in enumerate(real.get("intermediate", [])):
             if mid.get("api") is None:
@@ -1242,7 +1313,7 @@ def load_cases(d):
                 with open(os.path.join(p, f)) as fh:
                     c = json.load(fh)
                 c = c.get("case", c)
-                out.append({"text": c["text"], "ops": c["ops"], "name": f})
+                out.append({"text": c["text"], "ops": c["ops"], "name": f, "warnings": c.get("warnings")})
     return out
 
 
@@ -1253,7 +1324,7 @@ def replay(ctx, path):
     if c.get("kind") == "broken-obligation" or "text" not in c:
         print("REPLAY property=C09: this file records a broken obligation, not a failing input; run ./check C09")
         return 1
-    case = {"text": c["text"], "ops": c["ops"], "probe_first": c.get("probe_first", True)}
+    case = {"text": c["text"], "ops": c["ops"], "probe_first": c.get("probe_first", True), "warnings": c.get("warnings")}
     r = check_case(case)
     if r is not None:
         print("REPLAY property=C09 still fails: %s %s" % (r["kind"], json.dumps(r["detail"], default=str)[:300]))
@@ -1265,7 +1336,7 @@ def replay(ctx, path):
 
 def run(ctx):
     quick = ctx.tier == "quick"
-    n_pairs = 26 if quick else 140
+    n_pairs = 22 if quick else 120
     # the order of write_to_file's steps is taken from the source on every run (Gen/Writer.v); Properties/C09.v
     # compares it with the order Model/Place.v assumes (C09_gen_writer_steps)
     try:
@@ -1283,7 +1354,7 @@ def run(ctx):
             "statements": {}, "statement_errors": {}, "write": {}, "flags_at_write": {k: {"cell": 0, "data": 0} for k in CLASSES},
             "oracle_failures": {}, "model_diag": {}, "deepcopy_unsupported": 0, "reread_checked": 0,
             "program_length": {}, "flag_assignment_position": {"start": 0, "end": 0}, "targeted": {},
-            "read_oracle_checked": 0, "second_pass_without_probes": 0, "intermediate_writes": 0,
+            "read_oracle_checked": 0, "warnings_always": {}, "second_pass_without_probes": 0, "intermediate_writes": 0,
             "intermediate_write_errors": {}}
 
     def bump(d, k, n=1):
@@ -1322,6 +1393,10 @@ def run(ctx):
             for bits in ([None, 31, 0] if quick else [None, 31, 0] + rng.sample(range(1, 31), 5)):
                 ops = tprog if bits is None else tprog + flag_ops(bits)
                 cases.append({"text": text, "ops": ops, "src": "targeted:" + name, "bits": bits, "pair": i})
+        for name, wprog in warning_programs(rng, meta):
+            bump(dist["warnings_always"], name.split("-")[1])
+            cases.append({"text": text, "ops": wprog, "src": "targeted:" + name, "bits": None, "pair": i,
+                          "warnings": None if name.startswith("quiet-") else "always"})
         # either block means the same: the API after reading vs the independent reader's meaning of the input
         if "(" not in "".join(l for l in text.split("\n") if "fill" in l.lower()):
             dist["read_oracle_checked"] += 1
@@ -1390,12 +1465,12 @@ def run(ctx):
                 n_fail += 1
                 bump(dist["oracle_failures"], f["kind"])
                 fc = {"kind": f["kind"], "detail": json.loads(json.dumps(f["detail"], default=str)),
-                      "case": {"text": c["text"], "ops": c["ops"], "_diag": c["_diag"]}}
+                      "case": {"text": c["text"], "ops": c["ops"], "_diag": c["_diag"], "warnings": c.get("warnings")}}
                 if ctx.attribute(fc) is not None:
                     ctx.fail(fc)
                     d = None          # the real code's deviation on this case is the known finding's
                 elif len(ctx.violations) < 3:
-                    small = shrink({"text": c["text"], "ops": c["ops"]}, f["kind"])
+                    small = shrink({"text": c["text"], "ops": c["ops"], "warnings": c.get("warnings")}, f["kind"])
                     f2 = check_case(small) or f
                     ctx.fail({"kind": f2["kind"], "detail": json.loads(json.dumps(f2["detail"], default=str)), "case": small})
             if d:
